@@ -268,7 +268,7 @@ SpaceX ==
               /\ (s.rhs = "RD" <=> s.gs = "z3")
               /\ (s.when = "split" => s.gs \in {"twice", "mix", "Tfirst", "z"})
               \* localized / free grids: their own time variables start on the guessed grid
-              /\ (s.lT \/ s.grid = "free" => s.rhs = "R2" /\ s.when = "before" /\ s.gs \in {"none", "xe", "T", "t0", "mix"})
+              /\ (s.lT \/ s.grid = "free" => s.rhs = "R2" /\ s.when \in {"before", "after"} /\ s.gs \in {"none", "xe", "T", "t0", "mix"})
               /\ (s.grid = "free" => ~s.lT)}
     [] Family = "C14" ->
          {s \in [rhs : {"R2", "R3", "R6", "RC"}, meth : {"MS", "SS", "DC"}, intg : {"rk", "radau2"}, N : 1..2, M : 1..2, grid : {"uni", "geo"},
